@@ -156,6 +156,90 @@ class OrderedSymExec(SymExec):
             t = ast.copy_location(ast.BoolOp(op=ast.And(), values=parts), t)
         return super()._test(p, t, lineno, orig)
 
+    def _fold_for(self, s: ast.For, it: ast.AST, entry: dict[str, ast.AST], bound: set[str]) -> dict[str, ast.AST]:
+        """What a pure `for` loop leaves in the locals that were defined before it, as one expression:
+             acc = a0; for t in it: [if c:] acc += e           ->  a0 + sum(e for t in it [if c])
+             x = d; for t in it: if c: x = v; break            ->  next((v for t in it if c), d)
+           (`it` is the loop header with the locals substituted).  {} when the loop is anything else."""
+        live = {n for n in bound if n in entry}
+        targets = {n.id for n in ast.walk(s.target) if isinstance(n, ast.Name)}
+        if not live or live & targets:
+            return {}
+        q0 = Path()
+        q0.env = {k: v for k, v in entry.items() if k not in bound}
+        try:
+            body = OrderedSymExec(256, self.prog, self.fn, self.depth).block(q0, list(s.body))
+        except AnalysisError:
+            return {}
+        if not body or len(body) > 8:
+            return {}
+        for q, st in body:
+            if st not in ("next", "break"):
+                return {}
+            for e in q.effects:
+                if e.kind == "cond":
+                    continue
+                if e.kind != "call" or not _pure_call(e.node):  # type: ignore[arg-type]
+                    return {}
+
+        def cond_of(q: Path) -> list[ast.expr]:
+            out: list[ast.expr] = []
+            for e in q.effects:
+                if e.kind == "cond":
+                    atom = copy.deepcopy(e.node)
+                    written_true = next((c[4] for c in q.conds if c[2] is e.node), True)
+                    out.append(atom if written_true else ast.UnaryOp(op=ast.Not(), operand=atom))  # type: ignore[arg-type]
+            return out
+
+        def changed(q: Path, n: str) -> ast.AST | None:
+            v = q.env.get(n)
+            return None if v is None or (isinstance(v, ast.Name) and v.id == n) else v
+
+        def comp(ifs: list[ast.expr]) -> ast.comprehension:
+            test = [ifs[0] if len(ifs) == 1 else ast.BoolOp(op=ast.And(), values=ifs)] if ifs else []
+            return ast.comprehension(target=copy.deepcopy(s.target), iter=copy.deepcopy(it), ifs=test, is_async=0)
+
+        out: dict[str, ast.AST] = {}
+        breaks = [(q, st) for q, st in body if st == "break"]
+        if not breaks:
+            for n in live:
+                hits = [(q, changed(q, n)) for q, _st in body if changed(q, n) is not None]
+                if not hits:
+                    continue
+                terms = []
+                for q, v in hits:
+                    if not (isinstance(v, ast.BinOp) and isinstance(v.op, ast.Add)):
+                        return {}
+                    e = v.right if u(v.left) == n else v.left if u(v.right) == n else None
+                    if e is None or any(isinstance(x, ast.Name) and x.id in live for x in ast.walk(e)):
+                        return {}
+                    terms.append((u(e), e, cond_of(q)))
+                if len({t[0] for t in terms}) != 1 or len(hits) > 1 and len(body) != 2:
+                    return {}
+                ifs = terms[0][2] if len(body) > 1 else []
+                total: ast.AST = ast.Call(func=ast.Name(id="sum", ctx=ast.Load()), args=[
+                    ast.GeneratorExp(elt=copy.deepcopy(terms[0][1]), generators=[comp(ifs)])], keywords=[])
+                a0 = entry[n]
+                if not (isinstance(a0, ast.Constant) and a0.value == 0 and not isinstance(a0.value, bool)):
+                    total = ast.BinOp(left=copy.deepcopy(a0), op=ast.Add(), right=total)
+                out[n] = ast.fix_missing_locations(ast.copy_location(total, s))
+            return out
+        if len(breaks) != 1 or any(changed(q, n) is not None for q, st in body if st == "next" for n in live):
+            return {}
+        qb = breaks[0][0]
+        ifs = cond_of(qb)
+        if not ifs:
+            return {}
+        for n in live:
+            v = changed(qb, n)
+            if v is None:
+                continue
+            nxt = ast.Call(func=ast.Name(id="next", ctx=ast.Load()), args=[
+                ast.GeneratorExp(elt=copy.deepcopy(v), generators=[comp([copy.deepcopy(c) for c in ifs])]),
+                copy.deepcopy(entry[n])], keywords=[])
+            out[n] = ast.fix_missing_locations(ast.copy_location(nxt, s))
+        return out
+
     def stmt(self, p: Path, s: ast.stmt) -> list[tuple[Path, str]]:
         if isinstance(s, (ast.For, ast.AsyncFor, ast.While)):
             env = dict(p.env)
@@ -166,6 +250,9 @@ class OrderedSymExec(SymExec):
                     if e.kind == "loop" and e.orig is s:
                         e.env = {k: v for k, v in env.items() if k not in bound}  # type: ignore[attr-defined]
                         e.entry = env  # type: ignore[attr-defined]  # every local at loop entry
+                        if isinstance(s, ast.For) and not s.orelse:
+                            for name, val in self._fold_for(s, e.node, env, bound).items():
+                                q.env[name] = val
                         break
             return out
         call = self._whole_call(s)
@@ -174,6 +261,69 @@ class OrderedSymExec(SymExec):
             if got is not None:
                 return got
         return super().stmt(p, s)
+
+
+PURE_NAMES = {"max", "min", "len", "abs", "int", "float", "round", "bool", "isinstance", "timedelta", "sum",
+              "enumerate", "range", "zip", "tuple", "list", "sorted", "any", "all"}
+PURE_METHODS = {"total_seconds", "contains", "isnan", "timestamp", "index", "count", "get", "is_missing", "has_value"}
+
+
+def _pure_call(c: ast.Call) -> bool:
+    if isinstance(c.func, ast.Name):
+        return c.func.id in PURE_NAMES
+    return isinstance(c.func, ast.Attribute) and c.func.attr in PURE_METHODS
+
+
+def selection(sel: ast.AST, seq: str) -> tuple[str, str] | None:
+    """(what is selected, under which condition) of a filter(...) / generator / list comprehension over
+    `seq`, `enumerate(seq)` or `range(len(seq))`, written over the canonical names I (position) and E (element):
+    `filter(lambda x: x[1].f(t), enumerate(seq))` and `((i, g) for i, g in enumerate(seq) if g.f(t))` both give
+    ('(I, E)', 'E.f(t)')."""
+    def src_kind(x: ast.AST) -> str | None:
+        t = u(x)
+        return "plain" if t == seq else "enum" if t == f"enumerate({seq})" else "range" if t == f"range(len({seq}))" else None
+
+    def rename(x: ast.AST, var: ast.AST, kind: str) -> str:
+        x = copy.deepcopy(x)
+        names: dict[str, str] = {}
+        if isinstance(var, ast.Tuple) and kind == "enum" and len(var.elts) == 2 \
+                and all(isinstance(v, ast.Name) for v in var.elts):
+            names = {var.elts[0].id: "I", var.elts[1].id: "E"}  # type: ignore[attr-defined]
+        elif isinstance(var, ast.Name):
+            names = {var.id: {"plain": "E", "enum": "<pair>", "range": "I"}[kind]}
+        else:
+            return "?"
+
+        class R(ast.NodeTransformer):
+            def visit_Subscript(self, n: ast.Subscript) -> ast.AST:  # noqa: N802
+                if isinstance(n.value, ast.Name) and names.get(n.value.id) == "<pair>" and u(n.slice) in ("0", "1"):
+                    return ast.Name(id="I" if u(n.slice) == "0" else "E", ctx=ast.Load())
+                return self.generic_visit(n)
+
+            def visit_Name(self, n: ast.Name) -> ast.AST:  # noqa: N802
+                if n.id in names:
+                    return ast.Name(id="(I, E)" if names[n.id] == "<pair>" else names[n.id], ctx=ast.Load())
+                return n
+        text = u(R().visit(x))
+        return text.replace(f"{seq}[I]", "E") if kind == "range" else text
+
+    if isinstance(sel, ast.Call) and u(sel.func) in ("list", "tuple", "iter") and len(sel.args) == 1 and not sel.keywords:
+        return selection(sel.args[0], seq)
+    if isinstance(sel, ast.Call) and u(sel.func) == "filter" and len(sel.args) == 2 and isinstance(sel.args[0], ast.Lambda) \
+            and len(sel.args[0].args.args) == 1:
+        kind = src_kind(sel.args[1])
+        if kind is None:
+            return None
+        var = ast.Name(id=sel.args[0].args.args[0].arg, ctx=ast.Load())
+        return rename(var, var, kind), rename(sel.args[0].body, var, kind)
+    if isinstance(sel, (ast.GeneratorExp, ast.ListComp)) and len(sel.generators) == 1:
+        g = sel.generators[0]
+        kind = src_kind(g.iter)
+        if kind is None or not g.ifs:
+            return None
+        cond = g.ifs[0] if len(g.ifs) == 1 else ast.BoolOp(op=ast.And(), values=list(g.ifs))
+        return rename(sel.elt, g.target, kind), rename(cond, g.target, kind)
+    return None
 
 
 def _check_markers(paths: Iterable[Path], what: str) -> None:
